@@ -93,6 +93,7 @@ type Result struct {
 	SigBy    map[sharing.ID]*Sig
 	SetupErr string
 	BaseMul  func(k *big.Int) []byte // Bytes() of k·G in the variant's group
+	BaseXY   func(k *big.Int) (x, y *big.Int) // affine coordinates of k·G (nil, nil for the identity)
 }
 
 var (
@@ -169,10 +170,6 @@ func RunFull(cfg Config) *Result {
 	return bad("unknown variant " + cfg.Variant)
 }
 
-type affine interface {
-	AffineX() (any, error)
-}
-
 func run[
 	SCH mpcschnorr.MPCFriendlyScheme[VR, GE, S, M, KG, SG, VF],
 	VR mpcschnorr.MPCFriendlyVariant[GE, S, M],
@@ -194,6 +191,17 @@ func run[
 			return nil
 		}
 		return group.ScalarBaseOp(s).Bytes()
+	}
+	res.BaseXY = func(k *big.Int) (*big.Int, *big.Int) {
+		s, err := sf.FromWideBytes(new(big.Int).Mod(k, res.Order).Bytes())
+		if err != nil {
+			return nil, nil
+		}
+		x, y, err := coords(group.ScalarBaseOp(s))
+		if err != nil {
+			return nil, nil
+		}
+		return x, y
 	}
 	pol, err := keys.ParsePolicy(cfg.Policy)
 	if err != nil {
